@@ -1174,6 +1174,66 @@ class TrRegexFilter(Tr):
         return super().b(n)
 
 
+class TrGroup(Tr):
+    """the placement step of `parse_and_group`: `results` is the dictionary exact key → sub-results as an insertion-ordered
+    association list (`List (E × List (C × List Nat))`; a file is its id), `close_list` the values compared with `np.allclose`
+    (a list of optional values, `closeV` comparing two of them); `for c_list, sub_res in results[key]` walks the list stored
+    under the key by position, so that `sub_res.append(x)` is written back to that position"""
+
+    def e(self, n):
+        src = self.src(n)
+        if src == '(dcm, meta, dcm_path)':
+            return 'item_id'
+        if src == '[(dcm, meta, dcm_path)]':
+            return '[item_id]'
+        if src == '[(close_list, [(dcm, meta, dcm_path)])]':
+            return '[(close_list, [item_id])]'
+        if src == '(close_list, [(dcm, meta, dcm_path)])':
+            return '(close_list, [item_id])'
+        if isinstance(n, ast.Call) and self.src(n.func) == 'np.allclose' and len(n.args) == 2:
+            return '(match %s, %s with | some a_, some b_ => closeV a_ b_ | _, _ => false)' % (self.optv(n.args[0]), self.optv(n.args[1]))
+        if isinstance(n, ast.Name) and n.id in ('SUBS_', 'PAIR1_', 'PAIR2_'):
+            return {'SUBS_': '(dictGet results key)', 'PAIR1_': 'pair_.1', 'PAIR2_': 'pair_.2'}[n.id]
+        return super().e(n)
+
+    def b(self, n):
+        if isinstance(n, ast.Call):
+            return self.e(n)
+        if isinstance(n, ast.Compare) and len(n.ops) == 1 and isinstance(n.ops[0], (ast.In, ast.NotIn)) \
+                and self.src(n.comparators[0]) == 'results':
+            s_ = '(dictHas results %s)' % self.atom(n.left)
+            return s_ if isinstance(n.ops[0], ast.In) else '(!%s)' % s_
+        if isinstance(n, ast.Compare) and len(n.ops) == 1 and isinstance(n.ops[0], (ast.Is, ast.IsNot)) \
+                and isinstance(n.comparators[0], ast.Constant) and n.comparators[0].value is None:
+            # an optional close value: `c_val` / `close_list[c_idx]`
+            s_ = '(%s).isNone' % self.optv(n.left)
+            return s_ if isinstance(n.ops[0], ast.Is) else '(!%s)' % s_
+        return super().b(n)
+
+    def optv(self, n):
+        if isinstance(n, ast.Subscript) and self.src(n.value) == 'close_list':
+            return '((close_list)[%s]?).join' % self.e(n.slice)
+        return self.e(n)
+
+    def stmt0(self, s, ind):
+        src = self.src(s)
+        if isinstance(s, ast.Assign) and self.src(s.targets[0]) == 'results[key]':
+            return ['%sresults := dictSet results key %s' % (ind, self.atom(s.value))]
+        if isinstance(s, ast.Expr) and src.startswith('results[key].append('):
+            return ['%sresults := dictSet results key ((dictGet results key) ++ [%s])' % (ind, self.e(s.value.args[0]))]
+        if isinstance(s, ast.Expr) and src.startswith('sub_res.append('):
+            return ['%sresults := dictSet results key ((dictGet results key).set sub_idx_ (c_list, sub_res ++ [%s]))'
+                    % (ind, self.e(s.value.args[0]))]
+        if isinstance(s, ast.For) and self.src(s.iter) == 'results[key]' and self.src(s.target) in ('(c_list, sub_res)', 'c_list, sub_res'):
+            s2 = copy.copy(s)
+            s2.iter = ast.parse('enumerate(SUBS_)').body[0].value
+            s2.target = ast.Tuple(elts=[ast.Name(id='sub_idx_', ctx=ast.Store()), ast.Name(id='pair_', ctx=ast.Store())], ctx=ast.Store())
+            s2.body = [ast.parse('c_list = PAIR1_').body[0], ast.parse('sub_res = PAIR2_').body[0]] + list(s.body)
+            self.attrs.update({'SUBS_': '(dictGet results key)', 'PAIR1_': 'pair_.1', 'PAIR2_': 'pair_.2'})
+            return super().stmt0(ast.fix_missing_locations(s2), ind)
+        return super().stmt0(s, ind)
+
+
 class TrChkOrder(Tr):
     """the thorough check of `_chk_order`: `_files_info[i][1]` is the sorting tuple (vector, time, position)"""
     PROJ = {0: '.1', 1: '.2.1', 2: '.2.2'}
@@ -1331,6 +1391,15 @@ def pyDelWhileIter {β : Type} (p : β → Bool) : List β → List β
 def reSearch {ρ κ : Type} (mtch : ρ → κ → Bool) (L : List ρ) (key : κ) : Bool :=
   if L.isEmpty then true else L.any fun r => mtch r key
 
+/-- a dictionary as an association list in insertion order -/
+def dictHas {κ' β : Type} [DecidableEq κ'] (d : List (κ' × β)) (k : κ') : Bool := d.any fun p => p.1 == k
+def dictGet {κ' β : Type} [DecidableEq κ'] [Inhabited β] (d : List (κ' × β)) (k : κ') : β :=
+  match d.find? fun p => p.1 == k with
+  | some p => p.2
+  | none => default
+def dictSet {κ' β : Type} [DecidableEq κ'] (d : List (κ' × β)) (k : κ') (v : β) : List (κ' × β) :=
+  if d.any (fun p => p.1 == k) then d.map (fun p => if p.1 == k then (k, v) else p) else d ++ [(k, v)]
+
 /-- `a // b` of naturals: `ZeroDivisionError` for a zero divisor -/
 def pyFloorDiv (a b : Nat) : Except PyErr Nat := if b == 0 then .error PyErr.zeroDivision else .ok (a / b)
 
@@ -1356,6 +1425,7 @@ GROUP_OF = {
     'copy_slice_dest': 'values', 'copy_slice_vals': 'values', 'get_changed_class': 'values',
     'copy_slice': 'subset', 'copy_sample': 'subset', 'get_subset_key': 'subset',
     'reclassify': 'insert', 'insert_dispatch': 'insert', 'change_class': 'insert', 'insert_slice': 'insert', 'insert_non_slice': 'insert', 'insert_sample': 'insert',
+    'group_place': 'group',
     'key_regex_filter': 'filter',
     'check_voxel_order': 'orient',
     'parse_phoenix_line': 'phoenix',
@@ -1382,6 +1452,7 @@ GROUP_IMPORTS = {
     'phoenix': ['DcmVerif.Generated.PyPrelude', 'DcmVerif.Model.Phoenix'],
     'orient': ['DcmVerif.Generated.PyPrelude', 'DcmVerif.Model.Orient'],
     'filter': ['DcmVerif.Generated.PyPrelude'],
+    'group': ['DcmVerif.Generated.PyPrelude'],
 }
 GEN_DIR = os.environ.get('GEN_CODE_DIR', os.path.normpath(os.path.join(HERE, '..', 'lean', 'DcmVerif', 'Generated')))
 
@@ -2118,6 +2189,27 @@ def translate():
              body, tr,
              'the filter `make_key_regex_filter(exclude_res, force_include_res)` returns (dcmstack.py), applied to a key: the body of '
              'the maker followed by the body of its inner function `key_regex_filter`')
+    # ---- parse_and_group: where a file is put (group `group`)
+    f = find_func(ds, None, 'parse_and_group')
+    blk = None
+    if f is not None:
+        for node in ast.walk(f):
+            if isinstance(node, ast.If) and ast.unparse(node.test) in ('not key in results', 'key not in results') and node.orelse:
+                blk = [node]
+            elif isinstance(node, ast.If) and ast.unparse(node.test) == 'key in results' and node.orelse:
+                blk = [node]
+    if blk is None:
+        missing.append('group_place: statement `if not key in results: … else: …` not found in parse_and_group')
+    else:
+        tr = TrGroup({}, {})
+        tr.pre_declared = {'results'}
+        tr.opt_locals = set()
+        emit('group_place', '{E V : Type} [DecidableEq E] (closeV : V → V → Bool) (results0 : List (E × List (List (Option V) × List Nat))) '
+             '(key : E) (close_list : List (Option V)) (item_id : Nat) : Except PyErr (List (E × List (List (Option V) × List Nat)))',
+             blk + [ast.parse('return results').body[0]], tr,
+             'where `parse_and_group` puts one readable image file (dcmstack.py): under a new exact key, into the first sub-result of '
+             'its exact key whose close values all agree (both None, or both present and `np.allclose`), or into a new sub-result',
+             prologue=['let mut results := results0'])
     # ---- check_valid
     f = find_func(dm, 'DcmMetaExtension', 'check_valid')
     if f is None:
